@@ -13,6 +13,12 @@ namespace {
 
 const int OVER[] = { TLS1_1_VERSION, TLS1_2_VERSION, TLS1_3_VERSION, DTLS1_VERSION, DTLS1_2_VERSION };
 const uint32_t MVER[] = { v_tls_1_1, v_tls_1_2, v_tls_1_3, v_dtls_1_0, v_dtls_1_2 };
+// cfg "mrange": the MatrixSSL side enables a version range around `ver` (TLS 1.1+1.2 / DTLS 1.0+1.2) while the peer is pinned to `ver`
+static std::vector<uint32_t> mx_versions(const Plan &p, int ver) {
+    if (!p.get("mrange") || ver == 2) { return { MVER[ver] }; }
+    if (ver >= 3) { return { v_dtls_1_2, v_dtls_1_0 }; }
+    return { v_tls_1_2, v_tls_1_1 };
+}
 const char *VN[] = { "tls1.1", "tls1.2", "tls1.3", "dtls1.0", "dtls1.2" };
 struct Grp { uint16_t id; const char *name; };
 const Grp GROUPS[] = { { 23, "P-256" }, { 24, "P-384" }, { 25, "P-521" }, { 29, "X25519" } };
@@ -52,8 +58,9 @@ struct Interop {
         vsim_set_node(NODE_HARNESS);
         if (role == 0 && matrixSslNewSessionId(&sid, nullptr) < 0) { setup_err = "NewSessionId"; return false; }
         OsslCfg oc; oc.server = role == 0; oc.dtls = ver >= 3;
-        if (oc.dtls) { oc.min_ver = DTLS1_VERSION; oc.max_ver = p.get("orange") ? DTLS1_2_VERSION : OVER[ver]; if (!p.get("orange")) { oc.min_ver = OVER[ver]; } }
-        else if (p.get("orange")) { oc.min_ver = TLS1_1_VERSION; oc.max_ver = TLS1_3_VERSION; } else { oc.min_ver = oc.max_ver = OVER[ver]; }
+        bool orange = p.get("orange") && !p.get("mrange");
+        if (oc.dtls) { oc.min_ver = DTLS1_VERSION; oc.max_ver = orange ? DTLS1_2_VERSION : OVER[ver]; if (!orange) { oc.min_ver = OVER[ver]; } }
+        else if (orange) { oc.min_ver = TLS1_1_VERSION; oc.max_ver = TLS1_3_VERSION; } else { oc.min_ver = oc.max_ver = OVER[ver]; }
         std::string cname = ossl_cipher_name_for_id(suite);
         if (cname.empty()) { setup_err = "not_mutual: OpenSSL has no suite " + std::to_string(suite); return false; }
         if (role == 1) { if (tls13) { oc.suites13 = cname; } else { oc.cipher_list = cname; } }
@@ -69,7 +76,7 @@ struct Interop {
     }
     EpCfg mx_cfg() {
         EpCfg c; c.server = role == 1; c.node = role == 1 ? NODE_SERVER : NODE_CLIENT; c.dtls = ver >= 3;
-        c.versions = { MVER[ver] };
+        c.versions = mx_versions(p, ver);
         if (!c.server) { c.suites = { suite }; c.sid = sid; c.ticket_resumption = tickets; }
         c.client_auth = c.server && cauth != 0;
         if (c.server && p.get("oearly")) { c.max_early_data = 16384; }      // the MatrixSSL server accepts 0-RTT data (tickets carry the permission)
@@ -191,6 +198,7 @@ int control_mm(const Plan &p, bool resume) {
     PairCfg pc;
     int ver = (int) p.get("ver"); int cauth = (int) p.get("cauth", 0);
     pc.version = MVER[ver]; pc.suites = { (uint16_t) p.get("suite") }; pc.server_identity = (int) p.get("sid_kind", KK_RSA2048);
+    if (p.get("mrange") && ver != 2) { pc.version = 0; pc.versions_c = pc.versions_s = { MVER[ver] }; if ((int) p.get("role") == 0) { pc.versions_c = mx_versions(p, ver); } else { pc.versions_s = mx_versions(p, ver); } }
     pc.client_identity = cauth; pc.client_auth = cauth != 0; pc.tickets = p.get("tickets") != 0 || ver == 2; pc.key_shares = (int) p.get("key_shares", 1);
     // groups: the client offers grp_m*, the server supports what OpenSSL was told to support (grp_o*) or everything
     for (int i = 1; i <= 3; i++) { int64_t g = p.get("grp_m" + std::to_string(i)); if (g) { pc.groups_c.push_back((uint16_t) g); } g = p.get("grp_o" + std::to_string(i)); if (g) { pc.groups_s.push_back((uint16_t) g); } }
@@ -270,6 +278,7 @@ static Plan c10_gen(uint64_t seed, int tier, uint64_t index) {
     if (r.chance(1, 3)) { int pick = (int) r.below((uint64_t) ng); p.cfg["grp_o1"] = GROUPS[gi[(size_t) pick]].id; }   // the peer accepts only one of them
     p.cfg["key_shares"] = 1 + (int64_t) r.below((uint64_t) (ng > 1 ? 2 : 1));
     if (r.chance(1, 2)) { p.cfg["orange"] = 1; }
+    else if (ver != 2 && r.chance(1, 2)) { p.cfg["mrange"] = 1; }
     p.cfg["chunk"] = (int64_t) r.below(4);
     p.cfg["pl"] = (int64_t) r.below(4096);
     if (r.chance(2, 3)) { p.cfg["resume"] = 1 + (int64_t) r.below(2); }    // 1: one resumed connection, 2: two
@@ -328,6 +337,15 @@ static std::vector<Plan> c10_fixed(int tier) {
                 Plan p; p.seed = 106000 + (uint64_t) (role * 10000 + ver * 1000 + row.id % 997); base_cfg(p, role, ver, row.id, row.kind); p.cfg["resume"] = 1; p.cfg["pl"] = row.id % 50; v.push_back(p);
             }
             for (int ck : { KK_RSA2048, KK_EC256 }) { Plan p; p.seed = 107000 + (uint64_t) (role * 100 + ver * 10 + ck); base_cfg(p, role, ver, ver == 3 ? TLS_ECDHE_RSA_WITH_AES_128_CBC_SHA : TLS_ECDHE_RSA_WITH_AES_128_GCM_SHA256, KK_RSA2048); p.cfg["cauth"] = ck; v.push_back(p); }
+        }
+    }
+    // the MatrixSSL side enables a version range (TLS 1.1+1.2, DTLS 1.0+1.2) and the OpenSSL side only one of the two: every suite, both roles
+    for (int role = 0; role < 2; role++) {
+        for (int ver : { 0, 1, 3, 4 }) {
+            for (auto &row : ROWS) {
+                if (row.min12 && (ver == 0 || ver == 3)) { continue; }
+                Plan p; p.seed = 110000 + (uint64_t) (role * 10000 + ver * 1000 + row.id % 997); base_cfg(p, role, ver, row.id, row.kind); p.cfg["mrange"] = 1; p.cfg["resume"] = 1; p.cfg["pl"] = row.id % 50; v.push_back(p);
+            }
         }
     }
     return v;
